@@ -88,12 +88,13 @@ Print Assumptions pool_no_lost_wakeup_pushers.
 
 (* deadlock freedom / no lost wake-up on queuePushCond, for the repaired code: a state in which no thread can
    run although some thread is unfinished exists only if a worker is blocked in a BLOCKING POOL_add issued by
-   the very job it is running (a client error: the job waits for a free slot of its own pool) *)
+   the very job it is running (a client error: the job waits for a free slot of its own pool) - and never once
+   POOL_free has set shutdown: destroying the pool always terminates and joins every worker *)
 Theorem pool_deadlock_free : forall bodies progs n q sched,
   progs <> [] -> 1 <= n ->
   let cfg := mkcfg true progs bodies in
   let s := reach true bodies progs n q sched in
-  stuck cfg s = true -> self_blocked s = true.
+  stuck cfg s = true -> self_blocked s = true /\ shutdown (sp s) = false.
 Proof. exact deadlock_free. Qed.
 Print Assumptions pool_deadlock_free.
 
